@@ -244,44 +244,45 @@ def accept_of(w, qc, kind):
 
 
 # ------------------------------------------------------------------------------------------------ inputs per handler
-def build_input(ex, w, handler, N):
+def build_input(ex, w, handler, N, pfx='in'):
+    """symbolic input of one handler; `pfx` prefixes every solver symbol of the message (a second message of a sequence uses another prefix)"""
     mk = w.mkr
     if handler == 'on_proposal':
         if ex.choose(2, 'just') == 0:
-            qc, d = w.commit_qc('in_qc'); just = mk.adt(R.V + r'v2::leader_proposal::ProposalJustification', 'Commit', _0=qc)
+            qc, d = w.commit_qc(f'{pfx}_qc'); just = mk.adt(R.V + r'v2::leader_proposal::ProposalJustification', 'Commit', _0=qc)
         else:
-            t, d = w.timeout_qc('in_tqc'); just = mk.adt(R.V + r'v2::leader_proposal::ProposalJustification', 'Timeout', _0=t)
-        payload = some(mk.tuple_struct(R.V + r'block::Payload', symgen.BytesV(ex.fresh('payload_len')))) if ex.choose(2, 'payload') == 0 else none()
+            t, d = w.timeout_qc(f'{pfx}_tqc'); just = mk.adt(R.V + r'v2::leader_proposal::ProposalJustification', 'Timeout', _0=t)
+        payload = some(mk.tuple_struct(R.V + r'block::Payload', symgen.BytesV(ex.fresh(f'{pfx}_payload_len' if pfx != 'in' else 'payload_len')))) if ex.choose(2, 'payload') == 0 else none()
         lp = mk.adt(R.V + r'v2::leader_proposal::LeaderProposal', proposal_payload=payload, justification=just)
         author = ex.choose(N + 1, 'author')
-        signed, sok = w.signed(lp, author, 'in')
+        signed, sok = w.signed(lp, author, pfx)
         return [signed], dict(just=d, just_kind=variant_name(just), payload=payload.variant == 1, author=author, sig_ok=sok)
     if handler == 'on_new_view':
         if ex.choose(2, 'just') == 0:
-            qc, d = w.commit_qc('in_qc'); just = mk.adt(R.V + r'v2::leader_proposal::ProposalJustification', 'Commit', _0=qc)
+            qc, d = w.commit_qc(f'{pfx}_qc'); just = mk.adt(R.V + r'v2::leader_proposal::ProposalJustification', 'Commit', _0=qc)
         else:
-            t, d = w.timeout_qc('in_tqc'); just = mk.adt(R.V + r'v2::leader_proposal::ProposalJustification', 'Timeout', _0=t)
+            t, d = w.timeout_qc(f'{pfx}_tqc'); just = mk.adt(R.V + r'v2::leader_proposal::ProposalJustification', 'Timeout', _0=t)
         nv = mk.adt(R.V + r'v2::replica_new_view::ReplicaNewView', justification=just)
         author = ex.choose(N + 1, 'author')
-        signed, sok = w.signed(nv, author, 'in')
+        signed, sok = w.signed(nv, author, pfx)
         return [signed], dict(just=d, just_kind=variant_name(just), author=author, sig_ok=sok)
     if handler == 'on_commit':
-        msg, d = w.replica_commit('in', z3.Int('in_g'), w.num('in_e'))
+        msg, d = w.replica_commit(pfx, z3.Int(f'{pfx}_g'), w.num(f'{pfx}_e'))
         author = ex.choose(N + 1, 'author')
-        signed, sok = w.signed(msg, author, 'in')
+        signed, sok = w.signed(msg, author, pfx)
         return [signed], dict(msg=d, author=author, sig_ok=sok)
     if handler == 'on_timeout':
-        g = z3.Int('in_g'); e = w.num('in_e'); v = w.num('in_view')
+        g = z3.Int(f'{pfx}_g'); e = w.num(f'{pfx}_e'); v = w.num(f'{pfx}_view')
         hv = none(); hq = none(); hvd = None; hqd = None
         if getattr(w, 'light', False):
             pass
-        elif ex.choose(2, 'in_hv') == 0:
-            hvv, hvd = w.replica_commit('in_hv', g, e); hv = some(hvv)
-        if not getattr(w, 'light', False) and ex.choose(2, 'in_hq') == 0:
-            hqv, hqd = w.commit_qc('in_hq'); hq = some(hqv)
+        elif ex.choose(2, f'{pfx}_hv') == 0:
+            hvv, hvd = w.replica_commit(f'{pfx}_hv', g, e); hv = some(hvv)
+        if not getattr(w, 'light', False) and ex.choose(2, f'{pfx}_hq') == 0:
+            hqv, hqd = w.commit_qc(f'{pfx}_hq'); hq = some(hqv)
         msg = mk.adt(R.V + r'v2::replica_timeout::ReplicaTimeout', view=w.view(g, v, e), high_vote=hv, high_qc=hq)
         author = ex.choose(N + 1, 'author')
-        signed, sok = w.signed(msg, author, 'in')
+        signed, sok = w.signed(msg, author, pfx)
         return [signed], dict(tmsg=dict(view=v, g=g, e=e, hv=hvd, hq=hqd), author=author, sig_ok=sok)
     if handler == 'start_timeout':
         return [], {}
